@@ -1,10 +1,11 @@
 """Property -> rules.  Each property's check runs the listed rules; the texts go into the evidence."""
-from .rules import tab, enc, cas
+from .rules import tab, enc, cas, dsk
 
 RULESETS = {}
 RULESETS.update(tab.RULES)
 RULESETS.update(enc.RULES)
 RULESETS.update(cas.RULES)
+RULESETS.update(dsk.RULES)
 
 PROPS = {}
 
@@ -25,3 +26,6 @@ NOT_APPLICABLE = {}
 
 prop("C14", ["CAS-1", "CAS-4"], "x", "y")
 prop("C06", ["CAS-1", "CAS-5", "CAS-6", "CAS-3"], "x", "y")
+prop("C07", ["DSK-1", "DSK-2", "DSK-3", "DSK-4", "DSK-12"], "x", "y")
+prop("C08", ["DSK-1", "DSK-2", "DSK-4", "DSK-6", "DSK-7", "DSK-12"], "x", "y")
+prop("C15", ["DSK-6", "DSK-7", "DSK-12"], "x", "y")
